@@ -2,6 +2,7 @@ import GixModel.Basic.Hex
 import GixModel.Model.C06Core
 import GixModel.Model.C06b
 import GixModel.Model.C06m
+import GixModel.Model.C06e
 import GixModel.Model.C02
 import GixModel.Model.C05
 import GixModel.Model.C14
@@ -480,20 +481,23 @@ def handle? : List String → Option String
           match C19.scan C19.validRefName a with
           | none => "err"
           | some items => if items.all Option.isSome then "ok" else "err")
-    | "reflog-line" => some (obsOpt (C21.parseLine bs))
+    | "reflog-line" => some (match reflogLineSites bs with
+        | .panic => "panic" | .hang => "hang"
+        | _ => obsOpt (C21.parseLine bs))
     | "reflog-fwd" => some (if (C21.forward bs).all (fun l => (C21.parseLine l.1).isSome) then "ok" else "err")
     | "reflog-rev" => some (reflogRev bs 1024)
     | "reflog-rev-small" => some (reflogRev bs 97)
     | "config" => some (obsOpt (C26.parseEvents bs))
-    | "config-int" => some (obsOpt (C27.gixInt bs))
+    | "config-int" => some (match configInt bs with
+        | .ok (some _) => "ok" | .ok none => "err" | .err => "err" | .panic => "panic" | .hang => "hang")
     | "config-bool" => some (obsOpt (C27.gixBool bs))
     | "pkt-stream" => some (match C29.streaming C29.consts bs with
         | .ok _ => "ok" | .err _ => "err" | .panic => "panic")
     | "pkt-read" => some (pktRead bs)
     | "credentials" => some (match C35.fromBytes bs with
         | .ok _ => "ok" | .err _ => "err")
-    | "quote" => some (match C57.undo bs with
-        | .ok _ _ => "ok" | .err _ => "err")
+    | "quote" => some (obs (undoRun bs))
+    | "date-raw" => some (obs (dateRawRun bs))
     | _ => none
   | _ => none
 
